@@ -110,6 +110,8 @@ def coq_eval_codes(tag, header, cases, shard=200, timeout=1200):
         with open(path, "w") as fh:
             fh.write(header + "\nDefinition codes : list Z := [\n  " + ";\n  ".join(cs) + "\n].\nEval vm_compute in codes.\n")
         rc, out, err, dt = sh("coqc -noglob -Q %s RD -w -notation-overridden %s" % (COQ, path), cwd=d, timeout=timeout)
+        if rc == 124:     # a loaded machine is not a disagreement: one retry with a longer limit before giving up
+            rc, out, err, dt = sh("coqc -noglob -Q %s RD -w -notation-overridden %s" % (COQ, path), cwd=d, timeout=3 * timeout)
         for ext in (".vo", ".vok", ".vos", ".glob"):
             try: os.unlink(os.path.join(d, name + ext))
             except OSError: pass
